@@ -21,13 +21,13 @@ for pid in ALL:
         replay_cmd_template=f"./check.py {pid} --replay {{path}}",
         engine="lean4+correspondence",
         level_claimed=dict(category=P.get("level", "proof"), text=P.get("level_text", ""), design_ref=P.get("design_ref", "DESIGN.md section 6, " + pid)),
-        level_note=P.get("level_note", ""),
+        level_note=P.get("level_note") or ("Trusted base: " + "; ".join(P.get("trusted_base", [])) + (" Assumptions: " + "; ".join(P.get("assumptions", [])) if P.get("assumptions") else ""))[:3000],
         technique=P.get("technique", "Lean 4 theorems about a functional model + differential correspondence model/implementation"),
     ))
-hooks_commits = []
-hf = os.path.join(ROOT, "hooks_commits.txt")
-if os.path.exists(hf):
-    hooks_commits = [l.split()[0] for l in open(hf) if l.strip() and not l.startswith("#")]
+import subprocess
+hooks_commits = [l.split()[0] for l in subprocess.run(
+    "git -C /repo log --reverse --format='%h %s' f6dbd3e..HEAD", shell=True, capture_output=True, text=True).stdout.split("\n")
+    if "verif hooks" in l]
 man = dict(
     version=1,
     setup_cmd="./setup.sh",
